@@ -1,3 +1,25 @@
 """C05 - "a pipeline's code is its last stage's": a pipeline whose stage could not be started has no process handle (so its
 returncode is 1, see CommandPipeline.returncode).  The contract lives with C09's (same function, same clauses)."""
 from contracts import C09_session  # noqa: F401  (registers CommandPipeline.__init__ under C05 as well)
+
+# ---- the parser-side wrapper: "are we inside an and/or chain" is a scoped flag --------------------------------------------------
+from pyvc.contract import *  # noqa: E402,F401,F403
+
+PB = "xonsh/parsers/base.py::"
+WRAPPER = Obj("_SubprocChainRaiseWrapper", _inside_boolop=Bool)
+NODE = Opaque("astnode")
+contract(
+    PB + "_SubprocChainRaiseWrapper._visit_boolop", "C05", params=dict(self=WRAPPER, node=NODE), returns=NODE,
+    externals={"self._recurse": Ext(raises=["Exception+"], note="visits the operands (nested chains see the flag set)"),
+               "_SubprocChainRaiseWrapper._recurse": Ext(raises=["Exception+"]),
+               "_boolop_contains_subproc": Ext(ret=Bool, pure=True, uf="has_cmd", note="its own contract"), "has_cmd": Ext(ret=Bool, pure=True, uf="has_cmd"),
+               "self._wrap": Ext(ret=NODE, pure=True, uf="wrapped"), "_SubprocChainRaiseWrapper._wrap": Ext(ret=NODE, pure=True, uf="wrapped"),
+               "wrapped": Ext(ret=NODE, pure=True, uf="wrapped")},
+    modifies=["self"], raises={"Exception+": True},
+    ensures={"the-flag-is-as-before-on-every-normal-exit": "self._inside_boolop == old(self._inside_boolop)",
+             "an-outermost-chain-with-a-command-gets-the-raise-check-and-nothing-else-does":
+                 "result == (wrapped(node) if (not old(self._inside_boolop) and has_cmd(node)) else node)"},
+    ensures_exc={"the-flag-is-as-before-when-an-operand-fails-to-transform": "self._inside_boolop == old(self._inside_boolop)"},
+    from_property="a chain ... raises CalledProcessError iff the last command that ran failed (every outermost chain containing a command is wrapped - "
+                  "also the ones that come after a pure-Python and/or in the same input)",
+)
